@@ -56,11 +56,15 @@ TAlloc == /\ IsEvent("alloc") /\ Expect(Ev.bytes <= 67108864, "alloc-before-arri
 
 (* followup{c,res,bytes,name,proto}: after the poison the same connection (still open) asked for a response with a body:
    served | refused | hung;   cpu{busy_ms,wall_ms,where}: processor time the process used while everything was idle *)
+(* pool{dup,first_after}: how often the shared IoBuffer pool was handed a buffer back that it had already got back
+   (reference count below zero, reported through the pool's public log function) during the whole run: such a buffer
+   is owned by two frames of different connections from then on - the failure has left its connection *)
+TPool == /\ IsEvent("pool") /\ Expect(Ev.dup = 0, "pooled-buffer-given-back-twice") /\ UNCHANGED vars
 TFollowUp == /\ IsEvent("followup") /\ Expect(Ev.res # "hung", "request-after-poison-never-completes") /\ UNCHANGED vars
 TCpu == /\ IsEvent("cpu") /\ Expect(Ev.busy_ms * 2 <= Ev.wall_ms, "proxy-spins-when-idle") /\ UNCHANGED vars
 
 TNote == IsEvent("note") /\ UNCHANGED vars
 
-TraceNext == TNote \/ TFollowUp \/ TCpu \/ TBatchAlloc \/ TAlloc \/ TOpen \/ TServe \/ TPoison \/ TSeen \/ TClose \/ TGauge \/ TWedged \/ TAlive
+TraceNext == TNote \/ TPool \/ TFollowUp \/ TCpu \/ TBatchAlloc \/ TAlloc \/ TOpen \/ TServe \/ TPoison \/ TSeen \/ TClose \/ TGauge \/ TWedged \/ TAlive
 TraceSpec == TraceInit /\ [][TraceNext]_tvars
 ====
